@@ -239,6 +239,37 @@ def expand_hidden_settings(prog: dict) -> dict:
     return out
 
 
+def expand_unlisted_writes(prog: dict) -> dict:
+    """UNLISTEDWRITES -> write_setting(id, 1) for every setting id that an object of this family lists on an inverter that
+    answers everything, but that THIS object does not list at this point (its registers were refused, or never answered):
+    an id outside settings() is an unknown id, nothing may be written."""
+    if not any(c.get("api") == "UNLISTEDWRITES" for c in prog["calls"]):
+        return prog
+    import copy
+    from .inv_driver import run_program
+    k = [i for i, c in enumerate(prog["calls"]) if c.get("api") == "UNLISTEDWRITES"][0]
+    full = copy.deepcopy(prog)
+    full["inv"][0]["sim"]["refused"] = []
+    full["inv"][0]["sim"]["silent"] = []
+    full["calls"] = [{"api": "read_device_info"}, {"api": "settings"}]
+    here = dict(prog)
+    here["calls"] = [c for c in prog["calls"][:k]] + [{"api": "settings"}]
+    lists = []
+    for pr in (full, here):
+        tr = run_program(pr)
+        got = [[x["s"] for x in ev["val"]["v"]] for ev in tr["ev"] if ev["e"] == "RET" and ev.get("api") == "settings" and ev.get("ok")]
+        lists.append(got[-1] if got else [])
+    gone = [i for i in lists[0] if i not in set(lists[1])]
+    calls = list(prog["calls"][:k])
+    for sid in gone:
+        calls.append({"api": "write_setting", "args": [sid, 1],
+                      "span": {"guard": True, "documented": True, "decode": False, "detail": {"arg": "not listed: " + sid}}})
+    calls += prog["calls"][k + 1:]
+    out = dict(prog)
+    out["calls"] = calls
+    return out
+
+
 def expand_writes_like_reads(prog: dict) -> dict:
     """WRITESLIKEREADS -> one valid write_setting('modbus-R', N) for every read request (register R, count N) that the calls
     after the marker transmit on a fresh object: a history in which every later read has an earlier write with the same two
@@ -275,7 +306,7 @@ def expand_writes_like_reads(prog: dict) -> dict:
 
 
 def run_readonly_program(prog: dict) -> dict:
-    return run_program_values(expand_writes_like_reads(expand_hidden_settings(prog)))
+    return run_program_values(expand_writes_like_reads(expand_unlisted_writes(expand_hidden_settings(prog))))
 
 
 def gen_readonly_programs(tier: str, rnd: random.Random) -> list[dict]:
@@ -367,6 +398,13 @@ def gen_readonly_programs(tier: str, rnd: random.Random) -> list[dict]:
         calls = [{"api": "read_device_info"}, {"api": "read_settings_data", "span": {"decode": False}},
                  {"api": "get_grid_export_limit"}, {"api": "get_ongrid_battery_dod"}, {"api": "HIDDENWRITES"},
                  {"api": "read_settings_data", "span": {"decode": False}}]
+        progs.append({"inv": [{"family": "ET", "port": port, "sim": sim, "retries": 0}], "calls": calls})
+    # ... and ids that were never listed because their registers were refused / never answered while read_device_info probed
+    for tag, port, key, ranges in (("ETU", 8899, "refused", [[47547, 47552], [47589, 47594]]), ("ETU", 8899, "silent", [[47547, 47552]]),
+                                   ("ETT", 502, "silent", [[47589, 47594]]), ("EHU", 8899, "silent", [[47547, 47552], [47589, 47594]]),
+                                   ("ETT", 8899, "refused", [[47547, 47552]])):
+        sim = {"regs": device_regs("ET", serial_for(tag), 10000), key: ranges}
+        calls = [{"api": "read_device_info"}, {"api": "UNLISTEDWRITES"}, {"api": "read_settings_data", "span": {"decode": False}}]
         progs.append({"inv": [{"family": "ET", "port": port, "sim": sim, "retries": 0}], "calls": calls})
     # connect / discover are monitoring calls too
     for fam, tag in (("ET", "ETU"), ("DT", "DTU"), ("ES", "ESU")):
